@@ -1,23 +1,36 @@
 """C17 — "formatting never changes a program and is stable": PARTIAL, structural claim.
 
 dora-format turns the lossless syntax tree back into text: every formatter walks `node.children_with_tokens()`
-and either EMITS what it takes from that iterator (Formatter::token pushes the token's own text, format_node
-recurses) or DROPS it (whitespace / newlines are layout; optional separators are re-synthesised).  A code token
-or a comment is lost exactly when some non-panicking path takes an element and does not emit it, or lets an
-iterator go out of scope before it is exhausted; a token is invented exactly when text that did not come from a
-token is pushed.  The rules decide these *by construction* facts (abstract interpretation of the HIR, see
-rules/c17_interp.py) and the output self-check of format_source_with_line_length (MIR dominators):
+(a dora_parser SyntaxElementIter) and either EMITS what it takes from that iterator (Formatter::token pushes the
+token's own text, format_node recurses, a formatter that takes the node walks its children) or DROPS it (whitespace
+and newlines are layout; optional separators are re-synthesised).  A code token or a comment is lost exactly when
+some non-panicking path takes an element and does not emit it, or lets an iterator go out of scope before it is
+exhausted; a token is invented exactly when text that did not come from a token is pushed.  The rules decide these
+*by construction* facts with an abstract interpreter over the HIR (rules/c17_interp.py: kind sets of the next
+element refined by the tests on peek_kind(), pending elements, iterator deaths; helpers that take the iterator are
+inlined, formatters that take a node are summarised by an EMITS greatest fixpoint) and the output self-check of
+format_source_with_line_length with MIR dominators:
 
+  R0  anchors: kinds, trivia (= TokenKind::is_trivia), node kinds (= what Parser::close is given), which
+      SyntaxElementIter methods advance `index`, identity conversions (cast/as_*/to_*/unwrap/…, derived from
+      dora_parser's bodies), emitters, the has_comment predicate; every formatter is inside the interpreted fragment
   R1  drop discipline: every element taken and not emitted has a kind set established by a dominating test on the
       peeked kind, ⊆ {WHITESPACE, NEWLINE, COMMA} (or a frozen, reasoned (function, kind) exception); never a comment
-  R2  trivia loops: the arm taken for a comment kind emits, with Formatter::token, the very token it took
-  R3  exhaustive consumption: an iterator created by a formatter is exhausted (asserted) when it goes out of scope
-  R4  dispatch coverage: every node kind the parser closes has a format_node arm that emits the node
-  R5  output self-check: Ok(text) is only returned after `text` itself re-parsed with an empty error list
-  R6  emitted text is the token's own text; synthesised text is layout/separators or re-emits an eaten token
+  R2  kind dispatches with layout arms (the trivia loops): the arm a comment takes emits, with Formatter::token,
+      the very token it took — or leaves it unconsumed
+  R3  exhaustive consumption: an iterator created by a formatter is exhausted (asserted / looped to None) when it
+      goes out of scope on every non-panicking path
+  R4  dispatch coverage: every node kind the parser closes has a format_node arm that emits the node; the
+      unreachable!() arm of LIST_ITEM is justified by the list formatters handling their items themselves
+  R5  output self-check: Ok(text) is only returned after the input parsed without errors (else Err) and `text`
+      itself was parsed again and its error list checked to be empty
+  R6  emitted text is the token's own text; synthesised text is layout/separator characters or the re-emission of
+      a token kind the same function eats (paired with R1's frozen exceptions)
 
-NOT decided: idempotence, width-dependent layout, the order of emitted tokens (use declarations / modifiers are
-sorted on purpose), duplication of tokens, the Doc → text renderer, flow through containers (Vec of docs).
+NOT decided: idempotence; width-dependent layout; the order of emitted tokens (use declarations and modifiers are
+sorted on purpose); duplication of tokens; the Doc → text renderer; flow of docs/tokens through containers (Vec)
+between the function that fills and the one that empties them; that COMMA is optional wherever it is dropped;
+grammar facts quoted as frozen one-line reasons (DRAINED_OK, ACCESSOR_FORMATTERS, UNREACHABLE_ARMS).
 """
 import cfg
 import hirq
@@ -53,18 +66,26 @@ DROP_EXCEPTIONS = {
 }
 
 # Frozen: text synthesised although it is not layout — allowed only as the re-emission of a token kind that the same
-# function eats (derived pairing with R1's drops through the parser's token_name table); nothing else.
+# function eats (must pair with a DROP_EXCEPTIONS entry; cross-checked against the parser's token_name table where
+# that table names the kind).  (function, literal) → kind
+SYNTHESISED = {
+    ("dora_format::doc::use_::format_use_group", "{"): "L_BRACE",
+    ("dora_format::doc::use_::format_use_group", "}"): "R_BRACE",
+    ("dora_format::doc::ty::format_lambda_param_list::{closure#0}", "..."): "DOT_DOT_DOT",
+}
 # Frozen: iterators that die un-asserted but *drained* (all trivia emitted, next element is code or the end):
 # acceptable only where the grammar admits no further child (reason read from the parser's production).
 DRAINED_OK = {
-    "dora_format::doc::expr::collect_field_chain":
-        "FIELD_EXPR is `expr . name` (parse_postfix: open_before, DOT, name, close): nothing follows the name but "
-        "trailing trivia, which the final collect_comments emits",
-    "dora_format::doc::bin::collect_bin_chain":
-        "BIN_EXPR is `lhs op rhs` (parse_binary_expr): nothing follows rhs; trailing trivia belongs to rhs' innermost node",
-    "dora_format::doc::bin::format_assign":
-        "ASSIGN_EXPR is `lhs op rhs`: nothing follows rhs; trailing trivia is attached inside rhs (innermost close first)",
-    "dora_format::doc::element_list::format_element_list":
+    "dora_format::doc::expr::collect_field_chain:iter":
+        "FIELD_EXPR is exactly `expr . name|int` (parse_postfix_expr closes right after the name): nothing follows the "
+        "name but trailing trivia, which the final collect_comments emits",
+    "dora_format::doc::bin::collect_bin_chain:iter":
+        "BIN_EXPR is exactly `lhs op rhs` (parse_expr_bp closes right after the rhs): nothing follows rhs; trailing "
+        "trivia is taken by rhs' innermost node (inner close first)",
+    "dora_format::doc::bin::format_assign:iter":
+        "ASSIGN_EXPR is exactly `lhs op rhs` (parse_expr_bp): nothing follows rhs; a node's close takes the trailing "
+        "trivia before its parent's close can, so none is left between rhs and the end",
+    "dora_format::doc::element_list::format_element_list:iter":
         "ELEMENT_LIST holds elements and trivia only (parse_file / parse_element_list): collect_nodes::<AstElement> "
         "drains both; after the closing brace only trivia remains and print_trivia emits it",
 }
@@ -517,9 +538,8 @@ class Analysis:
         self.results = {}        # key → dict(final, returned, interp, error)
         self.emits = {}
         for p, b in sorted(m.fns.items()):
-            if not p.startswith("dora_format::doc::") or p.startswith("dora_format::doc::print::") \
-                    or p.startswith("dora_format::doc::DocBuilder::"):
-                continue
+            if p.startswith("dora_format::doc::print::") or p.startswith("dora_format::doc::DocBuilder::"):
+                continue            # the Doc debug printer and the free-standing Doc builder: no syntax tree in reach
             has_fmt, has_iter, creates = fn_roles(m, p, b)
             if not (has_fmt or has_iter):
                 if creates:
@@ -632,8 +652,14 @@ def run_r1(chk, cf, m, A):
         if not final_here and (symbolic or unknown):
             return                      # decided in the callers' contexts (the helper is inlined there)
         origin = info["origin"]
-        what = "element taken at %s (in %s)" % (where(cf, site_fn, line) or "?", short(site_fn)) \
-            if origin == "consumed" else "token carried in %s" % origin.split(":", 1)[1]
+        if origin.startswith("carrier:"):
+            ctor = origin.split(":", 1)[1]
+            ikey = "%s:carried:%s:not-emitted" % (short(key), "::".join(ctor.split("::")[-2:]))
+            r.instance(ikey)
+            r.violation(ikey, "a syntax element taken out of its carrier %s is not emitted on some non-panicking "
+                              "path of %s: the token stored there is lost" % (ctor, short(key)), where(cf, key))
+            return
+        what = "element taken at %s (in %s)" % (where(cf, site_fn, line) or "?", short(site_fn))
         for k in sorted(ks):
             if k in droppable:
                 continue
@@ -642,11 +668,12 @@ def run_r1(chk, cf, m, A):
             ikey = "%s:%s:drop:%s" % (short(key), last(site_fn), k) if key != site_fn else \
                 "%s:drop:%s" % (short(key), k)
             if unknown or I.is_sym(k):
-                r.instance("%s:%s:drop:unknown-kind" % (short(key), last(site_fn)))
-                r.violation("%s:%s:drop:unknown-kind" % (short(key), last(site_fn)),
-                            "%s is not emitted on some non-panicking path and its kind is not established by a "
-                            "dominating test on the peeked kind: any code token or comment at that position is lost"
-                            % what, where(cf, site_fn, line))
+                ukey = "%s:drop:unknown-kind" % short(site_fn)
+                r.instance(ukey)
+                r.violation(ukey,
+                            "%s is not emitted on some non-panicking path (reached from %s) and its kind is not "
+                            "established by a dominating test on the peeked kind: any code token, node or comment at "
+                            "that position is lost" % (what, short(key)), where(cf, site_fn, line))
                 reported.add((site_fn, sid, k))
                 if unknown:
                     for k2 in ks:
@@ -666,13 +693,26 @@ def run_r1(chk, cf, m, A):
                 r.violation(ikey, "%s can be the %s %s and is not emitted on some non-panicking path of %s: it is "
                                   "missing from the output" % (what, kind, k, short(key)), where(cf, site_fn, line))
 
+    # helpers that are also reached without being inlined (passed as a function value, or recursive): their own
+    # analysis from an unknown state is final
+    final_helpers = set()
+    for key, res in A.results.items():
+        final_helpers |= res["interp"].unsummarised
+    for p, b in m.fns.items():
+        callee_ids = {id(n[2]) for n in hirq.walk(b["body"]) if n[0] == "call"}
+        for n in hirq.walk(b["body"]):
+            if n[0] == "def" and n[1] == "fn" and id(n) not in callee_ids and n[2] in A.roots:
+                final_helpers.add(n[2])
+    for h in sorted(final_helpers):
+        r.observe("%s is reached without being inlined (function value / recursion): judged from an unknown state"
+                  % short(h))
     for (key, rk, info, ks) in drops:
         if rk == "helper" and key == info["fn"]:
-            judge(key, rk, info, ks, False)
+            judge(key, rk, info, ks, key in final_helpers)
     for (key, rk, info, ks) in drops:
         if rk == "helper":
             if key != info["fn"]:
-                judge(key, rk, info, ks, False)
+                judge(key, rk, info, ks, key in final_helpers)
         else:
             judge(key, rk, info, ks, True)
     # the generic primitive(s): sites whose kind is a parameter in their own analysis
@@ -706,6 +746,22 @@ def run_r1(chk, cf, m, A):
     for sk in sorted(sites, key=lambda x: (x[0], sites[x])):
         if sk not in ben and not any(d[2]["fn"] == sk[0] and d[2].get("site") == sk[1] for d in drops):
             r.instance("%s:line%d:emitted" % (short(sk[0]), sites[sk]))
+    # carriers: a token parked in an enum variant must be taken out again (and emitted: judged above) somewhere
+    filled, opened = {}, {}
+    for key, res in A.results.items():
+        it = res["interp"]
+        for ctor, fns in it.carried.items():
+            filled.setdefault(ctor, set()).update(fns)
+        for eid, info in it.eleminfo.items():
+            if info["origin"].startswith("carrier:"):
+                opened.setdefault(info["origin"].split(":", 1)[1], set()).add(info["fn"])
+    for ctor in sorted(filled):
+        ikey = "carrier:%s" % "::".join(ctor.split("::")[-2:])
+        r.instance(ikey, sample={"carrier": ctor, "filled_in": sorted(filled[ctor]), "opened_in": sorted(opened.get(ctor, ()))})
+        if ctor not in opened:
+            r.violation(ikey + ":never-opened",
+                        "tokens are stored in %s (by %s) but no function of the formatter takes them out again: they "
+                        "never reach the output" % (ctor, ", ".join(short(x) for x in sorted(filled[ctor]))))
     for (key, k), why in sorted(DROP_EXCEPTIONS.items()):
         if (key, k) not in used_exc:
             analysis(r, "%s:stale-exception:%s" % (short(key), k),
@@ -730,3 +786,776 @@ def run_r1(chk, cf, m, A):
 
 def rk_is_final(A, key):
     return root_kind(A, key) != "helper"
+
+
+# --------------------------------------------------------------------------- R2 trivia loops emit comments
+def _peek_matches(m, body):
+    """match nodes whose scrutinee is the peeked kind of a child iterator (directly, or a variable bound from it by an
+    enclosing `while let Some(k) = it.peek_kind()` / `let k = it.peek_kind()`), or the kind of a token just taken
+    (`tok.syntax_kind()`), and that have an arm for a layout kind.  Yields (match node, mode, name, wrapped)."""
+    bound = {}      # variable → iterator name
+    for n in hirq.walk(body):
+        if n[0] in ("letx", "let") and n[2] is not None:
+            init = hirq.strip(n[2])
+            if is_node(init) and init[0] == "mcall" and init[2] in m.peek_h:
+                itn = hirq.local_name(init[4])
+                names = []
+                _pat_names(n[1], names)
+                for nm in names:
+                    bound[nm] = itn
+    for n in hirq.walk(body):
+        if n[0] != "match":
+            continue
+        arms = hirq.match_arms(n)
+        if all(is_node(hirq.strip(a)) and hirq.strip(a)[0] == "lit" and hirq.strip(a)[1] == "bool"
+               for (_p, _g, a) in arms):
+            continue                      # matches!(..): a condition, not a dispatch
+        kinds = set()
+        for (pat, guard, arm) in arms:
+            kinds |= _deep_kinds(pat)
+        if not (kinds & set(LAYOUT_KINDS)):
+            continue
+        sc = hirq.strip(n[1])
+        if is_node(sc) and sc[0] == "mcall" and sc[2] in m.peek_h and hirq.local_name(sc[4]):
+            yield n, "peek", hirq.local_name(sc[4]), True
+        elif is_node(sc) and sc[0] == "local" and sc[1] in bound and bound[sc[1]]:
+            yield n, "peek", bound[sc[1]], False
+        elif is_node(sc) and sc[0] == "mcall" and sc[2] in m.syntax_kind_fns and hirq.local_name(sc[4]):
+            yield n, "taken", hirq.local_name(sc[4]), False
+
+
+def _deep_kinds(p):
+    """TokenKind constants named anywhere in a pattern (through Some(..), or-patterns, bindings)"""
+    out = set()
+    if not is_node(p):
+        return out
+    if p[0] == "ppath":
+        d = hirq.def_path(p[1])
+        if d and "::TokenKind::" in d:
+            out.add(last(d))
+    elif p[0] == "pts":
+        for q in p[2]:
+            out |= _deep_kinds(q)
+    elif p[0] == "pstruct":
+        for fld in p[2]:
+            out |= _deep_kinds(fld[1])
+    elif p[0] in ("por", "ptuple"):
+        for q in p[1]:
+            out |= _deep_kinds(q)
+    elif p[0] == "pbind" and p[2] is not None:
+        out |= _deep_kinds(p[2])
+    elif p[0] == "pref":
+        out |= _deep_kinds(p[1])
+    return out
+
+
+def _arm_for(m, arms, ck, wrapped):
+    """index of the arm an element of kind ck takes: (index, explicit?) — guarded/wild arms are candidates in order"""
+    cands = []
+    for i, (pat, guard, arm) in enumerate(arms):
+        ks = _deep_kinds(pat)
+        if ck in ks and guard is None:
+            return [(i, True)]
+        if ck in ks and guard is not None:
+            cands.append((i, False))
+        elif not ks:
+            cands.append((i, False))
+            if guard is None and hirq.pat_is_wild(pat):
+                break
+    return cands
+
+
+def run_r2(chk, cf, m, A):
+    r = chk.rule("C17.R2", "in every dispatch on the kind of the next/taken trivia element (arms for WHITESPACE/NEWLINE) "
+                           "the arm a comment takes emits, with Formatter::token, the very token it took — or "
+                           "leaves the comment unconsumed")
+    loops = 0
+    for p, b in sorted(m.fns.items()):
+        found = list(_peek_matches(m, b["body"]))
+        for idx, (mt, mode, name, wrapped) in enumerate(found):
+            loops += 1
+            arms = hirq.match_arms(mt)
+            for ck in COMMENT_KINDS:
+                ikey = "%s:dispatch%d:%s" % (short(p), idx, ck)
+                cands = _arm_for(m, arms, ck, wrapped)
+                verdicts = []
+                for (ai, explicit) in cands:
+                    it = Interp(m, A.emits)
+                    S = I.St()
+                    fr = I.Frame(p, ())
+                    fr.loops.append({"breaks": [], "conts": [], "depth": 0})
+                    if mode == "peek":
+                        key = ("param", p, "r2")
+                        S.iters[key] = (frozenset({ck}), it.top, None)
+                        it.iterinfo[key] = {"fn": p, "line": 0, "owned": False, "ctx": (), "root": p}
+                        S.env[name] = ("iter", key)
+                        for nm in _bound_names_for(mt, m):
+                            S.env[nm] = ("peek", key, "H", False)
+                        target = None
+                    else:
+                        target = ("r2", "taken")
+                        it.eleminfo[target] = {"fn": p, "line": 0, "itkey": None, "origin": "consumed", "root": p,
+                                               "site": None}
+                        S.pend[target] = frozenset({ck})
+                        S.env[name] = ("elem", target, None)
+                    pat, guard, body = arms[ai]
+                    try:
+                        if guard is not None:
+                            S, _f = it.cond(guard, S, fr)
+                        out = None
+                        if S is not None:
+                            _v, out = it.eval(body, S, fr)
+                    except Unsupported as ex:
+                        analysis(r, ikey + ":unsupported", str(ex), where(cf, p))
+                        continue
+                    outs = [s for s in [out] + fr.loops[0]["breaks"] + fr.loops[0]["conts"] +
+                            [s for (_v, s) in fr.rets] if s is not None]
+                    taken = [e for e in it.consumed_order] if mode == "peek" else [target]
+                    first = taken[0] if taken else None
+                    if first is None:
+                        verdicts.append(("unconsumed", ai, explicit))
+                        continue
+                    pending = any(first in s.pend for s in outs) or any(first == e for s in outs for (e, _k) in s.leaked)
+                    via = it.emitted_via.get(first, set())
+                    others = [e for e in taken[1:] if any(e in s.pend and (s.pend[e] & set(COMMENT_KINDS))
+                                                          for s in outs)]
+                    if not outs:
+                        verdicts.append(("panics", ai, explicit))
+                    elif pending or not via:
+                        verdicts.append(("dropped", ai, explicit))
+                    elif via != {"token"}:
+                        verdicts.append(("other:" + ",".join(sorted(via)), ai, explicit))
+                    elif others:
+                        verdicts.append(("second-dropped", ai, explicit))
+                    else:
+                        verdicts.append(("emitted", ai, explicit))
+                r.instance(ikey, sample={"fn": p, "kind": ck, "verdicts": [v[0] for v in verdicts]})
+                for (v, ai, explicit) in verdicts:
+                    if v in ("emitted", "unconsumed", "panics"):
+                        continue
+                    armtxt = "its explicit arm" if explicit else "the catch-all/guarded arm #%d" % ai
+                    if v == "dropped":
+                        msg = ("a %s reaching %s of this dispatch is taken from the iterator but not pushed with "
+                               "Formatter::token on every path: the comment is missing from the output" % (ck, armtxt))
+                    elif v == "second-dropped":
+                        msg = "%s of this dispatch takes a further comment token and does not emit it" % armtxt
+                    else:
+                        msg = ("a %s reaching %s is not emitted by Formatter::token on the token that was taken (%s): "
+                               "the emitted text is not the comment's own text" % (ck, armtxt, v))
+                    r.violation("%s:%s:%s" % (short(p), ck, "comment-arm-does-not-emit"), msg, where(cf, p))
+    r.floor("kind dispatches with layout arms", loops, 7)
+    return r
+
+
+def _bound_names_for(mt, m):
+    sc = hirq.strip(mt[1])
+    if is_node(sc) and sc[0] == "local":
+        return [sc[1]]
+    return []
+
+
+# --------------------------------------------------------------------------- R3 exhaustive consumption
+def run_r3(chk, cf, m, A):
+    r = chk.rule("C17.R3", "a child iterator created by a formatter is exhausted when it goes out of scope on every "
+                           "non-panicking path: handed to print_rest / `assert!(it.next().is_none())` / looped until "
+                           "None (else the remaining tokens and comments are dropped silently)")
+    created = {}      # (fn, name) → {"line", "H": set, "after": [elem-is-node flags], "deaths": n}
+    for key, res in sorted(A.results.items()):
+        it = res["interp"]
+        for ikey, info in it.iterinfo.items():
+            if not info["owned"]:
+                continue
+            ck = (info["fn"], info.get("name", "<temporary>"))
+            c = created.setdefault(ck, {"line": info["line"], "H": set(), "after": [], "deaths": 0, "roots": set()})
+            c["roots"].add(key)
+            for (H, L) in it.deaths.get(ikey, ()):
+                c["deaths"] += 1
+                c["H"] |= set(H)
+                c["after"].append(bool(L))
+    used = set()
+    for (fn, name), c in sorted(created.items()):
+        ikey = "%s:%s" % (short(fn), name)
+        w = where(cf, fn, c["line"])
+        if c["deaths"] == 0:
+            roots_exit = any(A.results[k]["final"] is not None for k in c["roots"])
+            errs = any(A.results[k]["error"] for k in c["roots"])
+            r.instance(ikey, nontrivial=False)
+            if roots_exit and not errs:
+                analysis(r, ikey + ":scope-end-not-seen", "the interpreter did not see this iterator go out of scope", w)
+            continue
+        H = c["H"]
+        if H <= {END}:
+            status = "exhausted"
+        elif not (H & m.trivia):
+            status = "drained"
+        elif all(c["after"]):
+            status = "after-node"
+        else:
+            status = "open"
+        r.instance(ikey, sample={"fn": fn, "iterator": name, "status": status})
+        if status == "exhausted":
+            continue
+        dk = "%s:%s" % (fn, name)
+        if status in ("drained", "after-node") and dk in DRAINED_OK:
+            used.add(dk)
+            r.observe("%s is not asserted to be exhausted, only %s — accepted: %s" % (
+                ikey, "drained of trivia" if status == "drained" else "abandoned right after a child node",
+                DRAINED_OK[dk]))
+            continue
+        if status == "open":
+            left = sorted(H & set(COMMENT_KINDS))
+            msg = ("the iterator `%s` created in %s can go out of scope while its next element is still trivia (%s "
+                   "possible): a trailing comment that the parser attached there (same-line comment after the last "
+                   "token of the node) is silently dropped, and nothing asserts that no token remains"
+                   % (name, short(fn), ", ".join(left) or "layout"))
+        else:
+            msg = ("the iterator `%s` created in %s is abandoned without asserting exhaustion (it is only %s): the "
+                   "elements that follow — e.g. a separator and the comments after it — are silently dropped"
+                   % (name, short(fn), "drained of leading trivia" if status == "drained" else "left after a node"))
+        r.violation(ikey + ":not-exhausted", msg, w)
+    for dk, why in sorted(DRAINED_OK.items()):
+        if dk not in used:
+            analysis(r, "%s:stale-exception" % short(dk), "the frozen reason for %s no longer applies (iterator is "
+                                                           "now asserted, open, or gone) — re-read the code" % short(dk))
+    r.floor("child iterators created by formatters", len(created), 75)
+    return r
+
+
+# --------------------------------------------------------------------------- R4 dispatch coverage
+# Frozen: kinds whose format_node arm may panic because no such node can reach format_node.
+UNREACHABLE_ARMS = {
+    "LIST_ITEM": "LIST_ITEM only occurs as a direct child of the comma-list nodes (AstCommaList impls), and every "
+                 "formatter of those takes the item out of the iterator itself and walks its children (checked below: "
+                 "each list kind's formatter reaches a LIST_ITEM handler without going through format_node)",
+}
+
+
+def hir_callgraph(m):
+    g = {}
+    for p, b in m.fns.items():
+        out = set()
+        for n in hirq.walk(b["body"]):
+            if n[0] == "def" and n[1] == "fn" and n[2] in m.fns:
+                out.add(n[2])
+            elif n[0] == "mcall" and n[2] in m.fns:
+                out.add(n[2])
+        g[p] = out
+    return g
+
+
+def run_r4(chk, cf, cp, m, A):
+    r = chk.rule("C17.R4", "every node kind the parser can close (except ERROR_*) has an explicit format_node arm that "
+                           "emits the node through a formatter; an arm may panic only for a kind that provably never "
+                           "reaches format_node")
+    fb = m.fns[FORMAT_NODE]
+    pname = fb["params"][0][0][1]
+    mt = None
+    for n in hirq.walk(fb["body"]):
+        if n[0] == "match":
+            sc = hirq.strip(n[1])
+            if is_node(sc) and sc[0] == "mcall" and sc[2] in m.syntax_kind_fns and hirq.local_name(sc[4]) == pname:
+                mt = n
+                break
+    if not r.anchor("format_node: match node.syntax_kind()", mt):
+        return r
+    arms = hirq.match_arms(mt)
+    arm_of = {}
+    for i, (pat, guard, body) in enumerate(arms):
+        for k in _deep_kinds(pat):
+            if guard is None:
+                arm_of.setdefault(k, i)
+    closable = sorted(k for k in m.nodek if not k.startswith("ERROR"))
+    r.floor("node kinds closed by the parser", len(closable), 85)
+    g = hir_callgraph(m)
+    targets = {}
+    for k in closable:
+        ikey = "format_node:%s" % k
+        if k not in arm_of:
+            r.instance(ikey, sample={"kind": k, "arm": None})
+            r.violation(ikey + ":no-arm",
+                        "the parser closes %s nodes but format_node has no arm for the kind: the catch-all panics "
+                        "(\"unsupported node\") on every valid file that contains one" % k, where(cf, FORMAT_NODE))
+            continue
+        pat, guard, body = arms[arm_of[k]]
+        it = Interp(m, A.emits)
+        S = I.St()
+        eid = ("param", 0)
+        it.eleminfo[eid] = {"fn": FORMAT_NODE, "line": 0, "itkey": None, "origin": "param", "root": FORMAT_NODE}
+        S.pend[eid] = frozenset({k})
+        S.env[pname] = ("elem", eid, None)
+        for i, (pp, ty) in enumerate(fb["params"][1:], 1):
+            S.env[pp[1]] = I.UNK
+        fr = I.Frame(FORMAT_NODE, ())
+        try:
+            _v, out = it.eval(body, S, fr)
+        except Unsupported as ex:
+            analysis(r, ikey + ":unsupported", str(ex), where(cf, FORMAT_NODE))
+            continue
+        outs = [s for s in [out] + [s for (_v2, s) in fr.rets] if s is not None]
+        callee = [cs.callee for cs in calls(body) if cs.callee in m.fns]
+        targets[k] = callee
+        if not outs:
+            r.instance(ikey, sample={"kind": k, "arm": "panics"})
+            if k not in UNREACHABLE_ARMS:
+                r.violation(ikey + ":arm-panics", "the arm for %s panics although the parser produces such nodes" % k,
+                            where(cf, FORMAT_NODE))
+            continue
+        r.instance(ikey, sample={"kind": k, "formatter": callee[:1]})
+        if any(eid in s.pend for s in outs):
+            r.violation(ikey + ":arm-emits-nothing",
+                        "the arm for %s does not hand the node to a formatter that emits it (callee: %s): every token "
+                        "below such a node is missing from the output" % (k, ", ".join(short(c) for c in callee) or "none"),
+                        where(cf, FORMAT_NODE))
+    # the formatters the dispatch relies on must really walk the node (EMITS) — except the frozen accessor formatters
+    for p, why in sorted(ACCESSOR_FORMATTERS.items()):
+        hb = m.fns.get(p)
+        if not r.anchor(p, hb):
+            continue
+        emitters = [cs.callee for cs in calls(hb["body"]) if cs.callee in A.emits and A.emits[cs.callee]
+                    and cs.callee not in (p,)]
+        r.instance("accessor-formatter:%s" % short(p), sample={"emits_through": emitters[:3]})
+        if not emitters:
+            r.violation("%s:emits-nothing" % short(p), "%s neither walks its node's children nor calls a formatter "
+                                                        "for them" % short(p), where(cf, p))
+        r.observe("%s reaches its children through a parser accessor, not the child iterator — accepted: %s"
+                  % (short(p), why))
+    # justification of the LIST_ITEM arm
+    for k, why in sorted(UNREACHABLE_ARMS.items()):
+        if k not in arm_of:
+            continue
+        sets, _raw = c06.cast_sets(cp)
+        parents = []
+        for im in cp.items["impls"]:
+            if im["trait"] == "dora_parser::ast::AstCommaList":
+                ks = sets.get(im["self_ty"], set())
+                parents += sorted(ks)
+        r.floor("comma-list node kinds (AstCommaList impls)", len(parents), 12)
+        handlers = list_item_handlers(cf, m, A, k)
+        r.floor("%s handlers" % k, len(handlers), 4)
+        for h in sorted(handlers):
+            r.observe("%s takes %s nodes out of the iterator and formats their children itself" % (short(h), k))
+        for pk in parents:
+            ikey = "format_node:%s:parent:%s" % (k, pk)
+            reach = set()
+            st = list(targets.get(pk, ()))
+            while st:
+                x = st.pop()
+                if x in reach or x == FORMAT_NODE:
+                    continue
+                reach.add(x)
+                st += list(g.get(x, ()))
+            ok = bool(reach & handlers)
+            r.instance(ikey, sample={"list_kind": pk, "handler": sorted(reach & handlers)[:2]})
+            if not ok:
+                r.violation(ikey + ":item-reaches-unreachable-arm",
+                            "%s nodes have %s children, but the formatter of %s (%s) reaches no function that takes "
+                            "the item and walks its children itself: the item is handed to format_node, whose %s arm "
+                            "is unreachable!()" % (pk, k, pk, ", ".join(short(t) for t in targets.get(pk, ())) or "none", k),
+                            where(cf, FORMAT_NODE))
+    return r
+
+
+def list_item_handlers(cf, m, A, kind):
+    """functions that consume an element from a child iterator, are written for `kind` items (they name the kind
+    constant, or instantiate a helper with AstListItem) and emit the element by walking its children / handing it
+    to a formatter other than format_node"""
+    ast_ty = "dora_parser::ast::Ast" + "".join(w.capitalize() for w in kind.lower().split("_"))
+    mention = set()
+    for p, b in m.fns.items():
+        for n in hirq.walk(b["body"]):
+            if n[0] == "def" and n[2].endswith("::TokenKind::" + kind):
+                mention.add(p)
+    for p, mb in cf.mir.items():
+        base = p.split("::{closure")[0]
+        for blk in mb["blocks"]:
+            t = blk["t"]
+            if t[0] == "call":
+                fn = cfg.callee_of(t[1]["f"])
+                if fn and ast_ty in (fn.get("g") or ""):
+                    mention.add(base)
+    out = set()
+    for key, res in A.results.items():
+        it = res["interp"]
+        for eid, vias in it.emitted_via.items():
+            info = it.eleminfo.get(eid)
+            if not info or info["origin"] != "consumed":
+                continue
+            fn = info["fn"]
+            if fn not in mention:
+                continue
+            if any(v == "children" or (v.startswith("fn:") and v != "fn:" + FORMAT_NODE) for v in vias):
+                out.add(fn)
+    return out
+
+
+# --------------------------------------------------------------------------- R5 output self-check
+ENTRY = "dora_format::format_source_with_line_length"
+PARSE = "dora_parser::parser::Parser::parse"
+FROM_SHARED = "dora_parser::parser::Parser::from_shared_string"
+# std functions that hand on (a copy of) the same text (std semantics, trusted)
+SAME_TEXT = ("alloc::sync::Arc::<T>::new", "core::clone::Clone::clone", "alloc::string::ToString::to_string",
+             "alloc::borrow::ToOwned::to_owned", "core::convert::Into::into", "core::convert::From::from",
+             "core::ops::deref::Deref::deref", "core::convert::AsRef::as_ref", "alloc::string::String::from",
+             "alloc::sync::Arc::<T, A>::clone")
+
+
+def text_root(body, op, defs, depth=0):
+    """where the text in operand `op` comes from: ('param', i) | ('call', id, name) | ('other', ..)"""
+    o = origin(body, op, defs)
+    if o[0] == "param":
+        return ("param", o[1])
+    if o[0] == "call":
+        c = o[1]
+        fn = cfg.callee_of(c["f"])
+        decl = fn.get("d") if fn else None
+        if decl in SAME_TEXT and c["a"] and depth < 12:
+            return text_root(body, c["a"][0], defs, depth + 1)
+        return ("call", id(c), cfg.callee_name(fn))
+    return ("other", str(o[:2]))
+
+
+def parse_wrappers(cf):
+    """functions of the analysed crate that are `Parser::from_shared_string(<param 1>).parse()`"""
+    out = set()
+    for p, mb in cf.mir.items():
+        b = Body(mb)
+        ps = b.calls_to(PARSE)
+        fs = b.calls_to(FROM_SHARED)
+        if len(ps) != 1 or len(fs) != 1 or b.argc != 1:
+            continue
+        defs = simple_defs(b)
+        if text_root(b, fs[0].args[0], defs) != ("param", 1):
+            continue
+        o = origin(b, ps[0].args[0], defs)
+        if not (o[0] == "call" and o[1] is fs[0].t):
+            continue
+        if ps[0].dest == [0, []]:
+            out.add(p)
+    return out
+
+
+def run_r5(chk, cf, cp, m, A):
+    r = chk.rule("C17.R5", "format_source_with_line_length returns Ok(text) only after (a) the input parsed without "
+                           "errors (else Err) and (b) `text` itself was parsed again and its error list was checked "
+                           "to be empty")
+    mb = cf.mir.get(ENTRY)
+    if not r.anchor(ENTRY, mb):
+        return r
+    b = Body(mb)
+    defs = simple_defs(b)
+    dom = b.dominators()
+    wrappers = parse_wrappers(cf)
+    oks, errs = [], []
+    for i, blk in enumerate(b.blocks):
+        if blk["c"] or i not in dom:
+            continue
+        for s in blk["s"]:
+            if s[0] == "a" and s[1] == [0, []] and s[2][0] == "agg" and s[2][1][0] == "adt" \
+                    and s[2][1][1] == "core::result::Result":
+                (oks if s[2][1][2] == "Ok" else errs).append((i, s[2][2][0]))
+    if not r.anchor("an Ok(..) return", oks):
+        return r
+    # parses of some text: (call, text root, errors local)
+    parses = []
+    for c in b.calls:
+        src = None
+        if c.name == PARSE or c.decl == PARSE:
+            o = origin(b, c.args[0], defs)
+            if o[0] == "call":
+                fn = cfg.callee_of(o[1]["f"])
+                if fn and fn.get("d") == FROM_SHARED:
+                    src = text_root(b, o[1]["a"][0], defs)
+        elif c.name in wrappers:
+            src = text_root(b, c.args[0], defs)
+        if src is None:
+            continue
+        if c.dest[1]:
+            continue
+        errloc = None
+        for i, blk in enumerate(b.blocks):
+            for s in blk["s"]:
+                if s[0] == "a" and not s[1][1] and s[2][0] == "use" and s[2][1][0] in ("c", "m") \
+                        and s[2][1][1] == [c.dest[0], [".1"]]:
+                    errloc = s[1][0]
+        parses.append((c, src, errloc))
+    r.floor("parse calls in the entry point", len(parses), 2)
+
+    def checks_on(errloc):
+        """[(block of the is_empty call, successor when NOT empty, successor when empty)]"""
+        out = []
+        for c in b.calls:
+            if not (c.name and c.name.endswith("::is_empty")) or not c.args:
+                continue
+            o = origin(b, c.args[0], defs)
+            if not (o[0] == "local" and o[1] == errloc or (o[0] == "local" and False)):
+                # origin() stops at a multiply-defined / non-call local: compare the base local
+                base = c.args[0][1][0] if c.args[0][0] in ("c", "m") else None
+                d = defs.get(base, [])
+                ok = False
+                if len(d) == 1 and d[0][1][0] == "a" and d[0][1][2][0] == "ref" and d[0][1][2][2] == [errloc, []]:
+                    ok = True
+                if not ok:
+                    continue
+            if c.target is None or c.dest[1]:
+                continue
+            t = b.blocks[c.target]["t"]
+            if t[0] != "switch" or t[1][0] not in ("c", "m") or t[1][1] != [c.dest[0], []]:
+                continue
+            nonempty = [bb for (v, bb) in t[2] if v == 0]
+            if len(nonempty) != 1:
+                continue
+            out.append((c.block, nonempty[0], t[3]))
+        return out
+
+    def guarded(ok_block, errloc):
+        """an emptiness check of errloc dominates ok_block and its not-empty side cannot reach ok_block"""
+        for (cb, ne, em) in checks_on(errloc):
+            if b.dominates(cb, ok_block) and ok_block not in b.reachable(ne):
+                return (cb, ne)
+        return None
+
+    # the default-width entry point is the same function with a constant width
+    fs = cf.mir.get("dora_format::format_source")
+    if fs is not None:
+        fb = Body(fs)
+        cs = fb.calls_to(ENTRY)
+        fdefs = simple_defs(fb)
+        r.instance("format_source:delegates")
+        if not (len(cs) == 1 and cs[0].dest == [0, []] and text_root(fb, cs[0].args[0], fdefs) == ("param", 1)
+                and len([c for c in fb.calls if c.name and c.name.startswith("dora_")]) == 1):
+            r.violation("format_source:does-not-delegate",
+                        "format_source no longer returns format_source_with_line_length(input, <width>) unchanged: "
+                        "its result is not covered by the self-check", where(cf, "dora_format::format_source"))
+    for (okb, op) in oks:
+        ret_root = text_root(b, op, defs)
+        ikey_a = "%s:input-parse-errors-lead-to-Err" % short(ENTRY)
+        ikey_b = "%s:output-reparsed-and-checked" % short(ENTRY)
+        # (a)
+        ins = [(c, src, e) for (c, src, e) in parses if src == ("param", 1) and b.dominates(c.block, okb)]
+        r.instance(ikey_a, sample={"input_parses": len(ins)})
+        a_ok = False
+        for (c, src, e) in ins:
+            g = guarded(okb, e) if e is not None else None
+            if not g:
+                continue
+            reach = b.reachable(g[1])
+            for (eb, eop) in errs:
+                o = origin(b, eop, defs)
+                if eb in reach and ((o[0] == "local" and o[1] == e) or eop[1][0] == e or _moved_from(b, eop, e, defs)):
+                    a_ok = True
+        if not a_ok:
+            r.violation(ikey_a, "no parse of the *input* dominates the Ok return with its non-empty error list leading "
+                                "to the Err return: input that does not parse could be formatted and reported as success",
+                        where(cf, ENTRY))
+        # (b)
+        r.instance(ikey_b, sample={"returned_text_root": str(ret_root[:1] + ret_root[2:])})
+        outs = [(c, src, e) for (c, src, e) in parses if src == ret_root and src[0] == "call"
+                and b.dominates(c.block, okb)]
+        if ret_root[0] != "call":
+            r.violation(ikey_b, "the text returned in Ok(..) is not the result of a call (the renderer): cannot relate "
+                                "it to the re-parsed text", where(cf, ENTRY))
+        elif not outs:
+            others = [src for (c, src, e) in parses if src != ("param", 1)]
+            r.violation(ikey_b, "no parse of the *returned text* dominates the Ok return (parses seen: %s): an output "
+                                "that does not parse would be returned as success" % (
+                                    ", ".join(sorted({str(s[0]) + (":" + str(s[-1]) if s[0] == "call" else str(s[1]))
+                                                      for (c, s, e) in parses})) or "none"), where(cf, ENTRY))
+        else:
+            if not any(e is not None and guarded(okb, e) for (c, src, e) in outs):
+                r.violation(ikey_b, "the rendered output is parsed again, but no check that *its* error list is empty "
+                                    "dominates the Ok return with the non-empty side unable to reach it (assert or Err "
+                                    "return missing, or applied to the input's errors): an output that does not parse "
+                                    "is returned as success", where(cf, ENTRY))
+    return r
+
+
+def _moved_from(b, op, loc, defs):
+    if op[0] not in ("c", "m"):
+        return False
+    base = op[1][0]
+    d = defs.get(base, [])
+    return len(d) == 1 and d[0][1][0] == "a" and d[0][1][2][0] == "use" and d[0][1][2][1][0] in ("c", "m") \
+        and d[0][1][2][1][1] == [loc, []]
+
+
+# --------------------------------------------------------------------------- R6 emitted text
+LAYOUT_CHARS = " ,"          # the property: "only layout, blank lines and optional trailing separators may differ"
+
+
+def token_texts(cp):
+    """kind → text, from the parser's own token_name table"""
+    tn = cp.hir_fn("parser::token_name")
+    out = {}
+    if not tn:
+        return out
+    for n in hirq.walk(tn["body"]):
+        if n[0] == "match":
+            for (pat, guard, arm) in hirq.match_arms(n):
+                lits = [x[2] for x in hirq.walk(arm) if x[0] == "lit" and x[1] == "str"]
+                if len(lits) == 1 and guard is None:
+                    for d in hirq.pat_paths(pat):
+                        out[last(d)] = lits[0]
+    return out
+
+
+def enclosing_roots(A, m):
+    """call node id → root key (function, or closure analysed as its own root) for every Formatter::text call"""
+    out = []
+    for p, b in sorted(m.fns.items()):
+        def walk(e, root):
+            if not isinstance(e, list):
+                return
+            if is_node(e):
+                if e[0] == "closure" and e[1] in A.roots:
+                    root = e[1]
+                if e[0] == "mcall" and e[2] == TEXT:
+                    out.append((root, p, e))
+                elif e[0] == "call" and is_node(e[2]) and e[2][0] == "def" and e[2][2] == TEXT:
+                    out.append((root, p, e))
+            for c in e:
+                if isinstance(c, list):
+                    walk(c, root)
+        walk(b["body"], p)
+    return out
+
+
+def run_r6(chk, cf, cp, m, A):
+    r = chk.rule("C17.R6", "text pushed into the document is the token's own text (Formatter::token) or a synthesised "
+                           "literal made of layout/separator characters, or the re-emission of a token kind the same "
+                           "function eats")
+    tb = m.fns[TOKEN]
+    pn = tb["params"][1][0][1]
+    texts = [n for n in hirq.walk(tb["body"]) if n[0] == "struct" and hirq.def_path(n[1]) == "dora_format::doc::Doc::Text"]
+    ok = False
+    if len(texts) == 1:
+        for (fname, val) in texts[0][2]:
+            v = hirq.strip(val)
+            if fname == "text" and is_node(v) and v[0] == "call" and len(v[3]) == 1:
+                a = hirq.strip(v[3][0])
+                if is_node(a) and a[0] == "mcall" and a[2] == "dora_parser::ast::SyntaxToken::text" \
+                        and hirq.local_name(a[4]) == pn:
+                    ok = True
+    pushes = [cs for cs in calls(tb["body"]) if cs.name == "push"]
+    r.instance("Formatter::token:text-is-token.text()")
+    if not (ok and len(pushes) == 1):
+        r.violation("Formatter::token:text-is-not-token.text()",
+                    "Formatter::token no longer pushes exactly one Doc::Text built from `token.text()` of its "
+                    "argument: the emitted text is not the input token's text", where(cf, TOKEN))
+    # every construction of Doc::Text in the crate
+    n_text = 0
+    for p, b in sorted(m.fns.items()):
+        for n in hirq.walk(b["body"]):
+            if not (n[0] == "struct" and hirq.def_path(n[1]) == "dora_format::doc::Doc::Text"):
+                continue
+            n_text += 1
+            if p == TOKEN:
+                continue
+            val = None
+            for (fname, v) in n[2]:
+                if fname == "text":
+                    val = hirq.strip(v)
+            src = val
+            if is_node(src) and src[0] in ("call", "mcall"):
+                cs = hirq.CallSite(src)
+                args = cs.all_args()
+                src = hirq.strip(args[0]) if len(args) == 1 else src
+            ikey = "%s:Doc::Text" % short(p)
+            r.instance(ikey)
+            if is_node(src) and src[0] == "lit" and src[1] == "str":
+                if all(ch in LAYOUT_CHARS for ch in src[2]):
+                    continue
+                r.violation(ikey + ":literal", "%s builds a Doc::Text from the literal %r: text that is not in the input"
+                            % (short(p), src[2]), where(cf, p))
+            elif is_node(src) and src[0] == "local" and p in (TEXT, "dora_format::doc::DocBuilder::text"):
+                continue            # the parameter: judged at the call sites below
+            else:
+                r.violation(ikey + ":unknown-source", "%s builds a Doc::Text from something that is neither its "
+                                                      "parameter nor a layout literal" % short(p), where(cf, p))
+    r.floor("Doc::Text constructions", n_text, 4)
+    bcalls = [p for p, b in m.fns.items() for cs in calls(b["body"])
+              if cs.callee and cs.callee.startswith("dora_format::doc::DocBuilder::") and not
+              p.startswith("dora_format::doc::DocBuilder::")]
+    if bcalls:
+        r.violation("DocBuilder:used-by-formatter", "the free-text builder DocBuilder is used by %s: its text is not "
+                                                    "token text" % ", ".join(sorted(set(short(x) for x in bcalls))))
+    # synthesised text
+    names = token_texts(cp)
+    r.floor("token_name entries", len(names), 15)
+    by_text = {}
+    for k, t in names.items():
+        by_text.setdefault(t, set()).add(k)
+    sites = enclosing_roots(A, m)
+    r.floor("Formatter::text call sites", len(sites), 105)
+    lits = {}
+    used_syn = set()
+    for (root, p, e) in sites:
+        cs = hirq.CallSite(e)
+        arg = hirq.strip(cs.args[0] if cs.is_method else cs.args[1]) if (cs.args) else None
+        if not (is_node(arg) and arg[0] == "lit" and arg[1] == "str"):
+            r.instance("%s:text(<non-literal>)" % short(root))
+            r.violation("%s:text(<non-literal>)" % short(root),
+                        "Formatter::text is called with a computed string (%s): text that does not come from a token "
+                        "can enter the output" % hirq.render(arg), where(cf, p, cs.line))
+            continue
+        lits.setdefault((root, arg[2]), []).append((p, cs.line))
+    for (root, lit), ws in sorted(lits.items()):
+        ikey = "%s:text(%r)" % (short(root), lit)
+        p, line = ws[0]
+        if all(ch in LAYOUT_CHARS for ch in lit):
+            r.instance(ikey, nontrivial=True, sample={"fn": root, "literal": lit, "class": "layout/separator"})
+            continue
+        k = SYNTHESISED.get((root, lit))
+        r.instance(ikey, sample={"fn": root, "literal": lit, "class": "re-emission of %s" % k})
+        if k is not None and (root, k) in DROP_EXCEPTIONS and names.get(k, lit) == lit and k in m.allk:
+            used_syn.add((root, lit))
+            r.observe("%s synthesises %r: re-emission of the %s it eats (%s)" % (short(root), lit, k,
+                                                                                DROP_EXCEPTIONS[(root, k)]))
+            continue
+        r.violation(ikey, "%s pushes the literal %r, which is not layout or a separator and not the re-emission of a "
+                          "token kind that %s eats (R1 exceptions): a code token that was not in the input is inserted"
+                    % (short(root), lit, short(root)), where(cf, p, line))
+    for (root, lit), k in sorted(SYNTHESISED.items()):
+        if (root, lit) not in used_syn:
+            analysis(r, "%s:stale-synthesised:%s" % (short(root), k),
+                     "the frozen entry (%s synthesises %r for %s) matches no call of Formatter::text any more"
+                     % (short(root), lit, k))
+    return r
+
+
+# --------------------------------------------------------------------------- entry point
+def run(chk, F):
+    cf = F.crate(CF)
+    cp = F.crate(CP)
+    r0 = chk.rule("C17.R0", "the mechanism the rules interpret is where they expect it (kinds, trivia, child-iterator "
+                            "methods, identity conversions, emitters) and every formatter is inside the interpreted "
+                            "fragment")
+    m = build_model(r0, cf, cp)
+    if m is None:
+        return
+    r0.instance("model", sample={"kinds": len(m.allk), "node_kinds": len(m.nodek),
+                                 "identity_conversions": len(m.identity),
+                                 "consuming": sorted(m.consuming)[:2], "comment_predicates": sorted(m.comment_preds)})
+    r0.floor("TokenKind variants", len(m.allk), 190)
+    r0.floor("identity conversions derived from dora_parser", len(m.identity), 600)
+    r0.floor("Formatter combinators that run their closure once", len(m.inline_once), 4)
+    if not r0.anchor("has_comment-like predicate (guards the compact single-item paths)", m.comment_preds):
+        return
+    try:
+        A = Analysis(m).run()
+    except Unsupported as ex:
+        analysis(r0, "interpreter", str(ex))
+        return
+    for k in sorted(A.roots):
+        r0.instance("root:%s" % short(k), nontrivial=True)
+    run_r1(chk, cf, m, A)
+    run_r2(chk, cf, m, A)
+    run_r3(chk, cf, m, A)
+    run_r4(chk, cf, cp, m, A)
+    run_r5(chk, cf, cp, m, A)
+    run_r6(chk, cf, cp, m, A)
+    chk.assumptions.append("rustc's HIR/MIR of the host configuration is the code that runs; std Option/Clone/Arc "
+                           "conversions hand on the same value")
+    chk.extra["not_decided"] = ("idempotence; width-dependent layout; order of emitted tokens (use declarations and "
+                                "modifiers are sorted on purpose); duplication of tokens; Doc → text rendering; flow of "
+                                "docs/tokens through containers (Vec) between the function that fills and the one that "
+                                "empties them; grammar facts quoted as frozen one-line reasons")
